@@ -3,5 +3,8 @@
 // Contracts for package events, checked by /verif/govc (comment-only; compiled only with -tags verif).
 package events
 
+//@ prelude c11
+
 //@ func NewEvent(eventType EventType) Event
+//@   ensures [C11:stamped-with-a-fresh-clock-reading] timeTick(result.Time) == old(evClock) && evClock == old(evClock) + 1
 //@   ensures [C11:type] result.EventType == eventType
